@@ -69,9 +69,19 @@ def run(ctx):
     exe = build_harness()
     base = c04.gen_jobs(ctx)
     jobs = []
+    import random
+    rnd = random.Random(ctx.seed + 13)
     for j in base:
         calls = [c for c in j["calls"] if c["op"] != "text_encode"]
-        src = {k: v for k, v in calls[-1].items() if k in ("lit", "reg", "fam")}
+        fj = calls.pop()                      # families_json (kept last but one)
+        src = {k: v for k, v in fj.items() if k in ("lit", "reg", "fam")}
+        if j["tag"] == "edited-after-encode":
+            # [families F, (text encode removed), edits...] -> encode once BEFORE the edits as well
+            calls.insert(1, {"op": "pb_encode", "fam": "F"})
+        for k in sorted({rnd.randint(0, 30), rnd.randint(5, 400)}):
+            calls.append(dict({"op": "pb_encode", "mode": "failing_writer", "after": k}, **src))
+        calls.append(dict({"op": "pb_encode", "mode": "chunked", "after": rnd.choice([1, 2, 7, 100])}, **src))
+        calls.append(fj)
         calls.append(dict({"op": "pb_encode"}, **src))
         jobs.append({"id": j["id"], "calls": calls, "tag": j["tag"]})
     # families of type UNTYPED and empty help are legal protobuf too
@@ -101,6 +111,10 @@ def run(ctx):
             continue
         if "ok" not in enc or "ok" not in fj:
             ctx.violation("encode-failed", "a valid family list was refused: %s" % (enc if "ok" not in enc else fj), rp)
+            continue
+        ch = rs[-3] if len(rs) >= 3 else {}
+        if len(rs) >= 3 and j["calls"][-3].get("mode") == "chunked" and ("ok" not in ch or ch["ok"]["hex"] != enc["ok"]["hex"]):
+            ctx.violation("chunked-writer-differs", "a writer that accepts only a few bytes per call received a different stream (%s vs %d bytes)" % (len(ch.get("ok", {}).get("hex", "")) // 2 if "ok" in ch else ch, len(enc["ok"]["hex"]) // 2), rp)
             continue
         recs.append({"id": j["id"], "bytes": list(bytes.fromhex(enc["ok"]["hex"])), "exp": canon_families(fj["ok"]), "job": j})
     results = decode_with_tlc(ctx, recs, "d")
